@@ -30,7 +30,7 @@ def _one(rng, incremental=False):
             else:
                 ints.append(s.int_var(rng.randint(-2, 0), rng.randint(0, 2)))
             g = dslgen.Gen(rng, s, bools, ints)
-            s.ensure(g.bool_expr(rng.randint(0, 2)))
+            dslgen.post(s, g, rng, 2)
         cs = [exprio.pexpr(c) for c in s.constraints]
         try:
             models = dslgen.brute_models(s)
@@ -152,8 +152,12 @@ def correspond(ctx):
             out = ("ok", r, sol)
         except Exception as e:
             out = ("err", core.err_name(e), None)
+        try:
+            shadow = len(dslgen.brute_models(s))     # meaning of the construction steps themselves, independent of the DSL
+        except Exception:
+            shadow = None
         lines.append(f"(models {decls} " + " ".join(cs) + ")")
-        meta.append(("models", cs, decls, out, s))
+        meta.append(("models", cs, decls, out, s, shadow))
         ctx.case({"decls": decls, "constraints": cs[:3]}, " ".join(cs) if any("(" in c for c in cs) else None)
     outs = drv.run(lines)
     for m, out in zip(meta, outs):
@@ -172,6 +176,8 @@ def correspond(ctx):
             t = core.parse_sx(out)
             cnt = int(t[0])
             res = m[3]
+            if m[5] is not None and m[5] != cnt:
+                ctx.disagree("dsl-construction", constraints=m[1], decls=m[2], models_by_construction_meaning=m[5], models_of_built_tree=cnt)
             ctx.count("find_answer:" + (str(res[1])))
             if res[0] == "err":
                 ctx.disagree("find_answer-exception", constraints=m[1], decls=m[2], exception=res[1], lean_models=cnt)
